@@ -31,7 +31,7 @@ class Path:
         return Path(self.events + other.events, self.conds + other.conds, other.end, other.value)
 
     def tags(self):
-        return [e[0] for e in self.events]
+        return [e[0] for e in self.events if e[0] != '?']
 
     def __repr__(self):
         return 'Path(%s | %s | %s)' % (','.join(self.tags()), self.end,
@@ -61,18 +61,25 @@ class Enumerator:
         if r is not None:
             return r
         r = False
+        self._rel_cache[key] = False  # cycle guard
         for x in ir.walk(n):
             if x.get('k') in EXIT_KINDS or self.classify(x):
                 r = True
                 break
-            if x.get('k') == 'LambdaExpr':
-                continue
+            if x.get('k') == 'DeclRefExpr' and x.get('id') in self.lambdas and self.inline_lambdas:
+                if self.relevant(self.lambdas[x['id']].get('body')):
+                    r = True
+                    break
         self._rel_cache[key] = r
         return r
 
     def run(self, fn):
         self.lambdas = {}
+        self._rel_cache = {}
         body = fn.get('body')
+        for x in ir.walk(body):
+            if x.get('k') == 'DeclStmt':
+                self._bind_lambdas(x)
         pre = Path()
         for i in fn.get('inits', []) or []:
             if i.get('written'):
@@ -82,12 +89,20 @@ class Enumerator:
         out = []
         for p in self.stmt(body):
             q = pre.extend(p)
+            if not consistent_constexpr(q):
+                continue
             if q.end is None:
                 q.end = 'fall'
             elif q.end in ('break', 'continue'):
                 q.end = 'fall'
             out.append(q)
         return out
+
+    def _cp(self, c):
+        """a branch decision: kept in conds and, in order with the events, as a ('?', (cond, pol, constexpr))"""
+        if not self.keep_conds:
+            return Path()
+        return Path([('?', c)], [c])
 
     def _check(self, lst):
         if len(lst) > self.cap:
@@ -156,12 +171,24 @@ class Enumerator:
             condp = self.expr(s.get('cond'))
             out = []
             cx = bool(s.get('constexpr'))
+            lam_cond, lam_neg = self._cond_lambda(s.get('cond'))
             for p0 in pre:
                 for pc in condp:
                     base = p0.extend(pc)
+                    forced = None
+                    if lam_cond is not None:
+                        for cnd in reversed(pc.conds):
+                            c0 = cnd[0]
+                            if isinstance(c0, tuple) and c0[0] == 'lambda-return' and c0[1] is lam_cond:
+                                v = ir.skipcasts(c0[2]) if c0[2] else None
+                                if v is not None and v.get('k') == 'CXXBoolLiteralExpr':
+                                    forced = (v.get('v') == 'true') != lam_neg
+                                break
                     for pol, arm in ((True, s.get('then')), (False, s.get('else'))):
+                        if forced is not None and pol != forced:
+                            continue
                         for q in (self.stmt(arm) if arm is not None else [Path()]):
-                            r = base.extend(Path([], [(s.get('cond'), pol, cx)] if self.keep_conds else []))
+                            r = base.extend(self._cp((s.get('cond'), pol, cx)))
                             out.append(r.extend(q))
             return self._check(out)
         if k in ('ForStmt', 'WhileStmt', 'CXXForRangeStmt', 'DoStmt'):
@@ -189,7 +216,7 @@ class Enumerator:
             for h in s.get('handlers', []) or []:
                 if h is not None and self.relevant(h.get('body')):
                     for q in self.stmt(h.get('body')):
-                        r = Path([], [(h, True, False)] if self.keep_conds else []).extend(q)
+                        r = self._cp((h, True, False)).extend(q)
                         out.append(r)
             return out
         if k == 'SwitchStmt':
@@ -213,7 +240,7 @@ class Enumerator:
             segs = self.seq(items[si:])
             for pc in condp:
                 for q in segs:
-                    r = pc.extend(Path([], [(items[si], True, False)] if self.keep_conds else [])).extend(q)
+                    r = pc.extend(self._cp((items[si], True, False))).extend(q)
                     if r.end == 'break':
                         r.end = None
                     out.append(r)
@@ -237,9 +264,9 @@ class Enumerator:
             for pc in condp:
                 base = p0.extend(pc)
                 if self.loop_mode == '01' and k != 'DoStmt':
-                    out.append(base.extend(Path([], [(s, False, False)] if self.keep_conds else [])))
+                    out.append(base.extend(self._cp((s, False, False))))
                 for q in bodyp:
-                    r = base.extend(Path([], [loopmark] if self.keep_conds else [])).extend(q)
+                    r = base.extend(self._cp(loopmark)).extend(q)
                     if r.end in ('break', 'continue'):
                         r.end = None
                         out.append(r)
@@ -274,20 +301,25 @@ class Enumerator:
             for pc in self.expr(c[0]):
                 for pol, arm in ((True, c[1]), (False, c[2])):
                     for q in self.expr(arm):
-                        out.append(pc.extend(Path([], [(c[0], pol, False)] if self.keep_conds else [])).extend(q))
+                        out.append(pc.extend(self._cp((c[0], pol, False))).extend(q))
             return self._check(out)
         if k == 'BinaryOperator' and e.get('op') in ('&&', '||') and len(c) == 2 and self.relevant(c[1]):
             out = []
             short_pol = (e['op'] == '||')
             for pl in self.expr(c[0]):
-                out.append(pl.extend(Path([], [(c[0], short_pol, False)] if self.keep_conds else [])))
+                out.append(pl.extend(self._cp((c[0], short_pol, False))))
                 for pr in self.expr(c[1]):
-                    out.append(pl.extend(Path([], [(c[0], not short_pol, False)] if self.keep_conds else []))
+                    out.append(pl.extend(self._cp((c[0], not short_pol, False)))
                                .extend(pr))
             return self._check(out)
         # generic: children in order, then the node itself
         cur = [Path()]
         for ch in ir.kids(e):
+            chs = ir.skipcasts(ch)
+            if (ir.is_call(e) and chs is not None and chs.get('k') == 'DeclRefExpr' and chs.get('id') in self.lambdas
+                    and ch is not (e.get('c') or [None])[0]
+                    and not (e.get('k') == 'CXXOperatorCallExpr' and e.get('op') == '()')):
+                ch = self.lambdas[chs['id']]
             if ch.get('k') == 'LambdaExpr' and ir.is_call(e):
                 # lambda passed as an argument: body is a loop body at the call site
                 lam = self._lambda_body_paths(ch)
@@ -332,6 +364,19 @@ class Enumerator:
             cur = [p.extend(add) if p.end is None else p for p in cur]
         return cur
 
+    def _cond_lambda(self, cond):
+        """If cond is `L(args)` or `!L(args)` for a locally bound lambda L, return (lambda node, negated)."""
+        neg = False
+        c = ir.skipcasts(cond)
+        while c is not None and c.get('k') == 'UnaryOperator' and c.get('op') == '!':
+            neg = not neg
+            c = ir.skipcasts((c.get('c') or [None])[0])
+        if c is not None and ir.is_call(c):
+            lam = self._called_lambda(c)
+            if lam is not None:
+                return lam, neg
+        return None, False
+
     def _called_lambda(self, e):
         ce = ir.callee_expr(e)
         if e.get('k') == 'CXXOperatorCallExpr' and e.get('op') == '()':
@@ -345,9 +390,8 @@ class Enumerator:
         if not self.lambdas or not self.inline_lambdas:
             return False
         for x in ir.walk(e, into_lambdas=False):
-            if ir.is_call(x):
-                lam = self._called_lambda(x)
-                if lam is not None and self.relevant(lam.get('body')):
+            if x.get('k') == 'DeclRefExpr' and x.get('id') in self.lambdas:
+                if self.relevant(self.lambdas[x['id']].get('body')):
                     return True
         return False
 
@@ -359,9 +403,32 @@ class Enumerator:
                 r.end = 'throw'
             # the lambda's own return value is kept for rules that need it
             if q.end == 'return':
-                r.conds = r.conds + [(('lambda-return', lam, q.value), True, False)]
+                mark = (('lambda-return', lam, q.value), True, False)
+                r.conds = r.conds + [mark]
+                r.events = r.events + [('?', mark)]
             out.append(r)
         return out
+
+
+def consistent_constexpr(p):
+    """Drop paths that take contradictory arms of the same `if constexpr` condition (compared as rendered text
+    with leading negations normalised)."""
+    seen = {}
+    for c, pol, cx in p.conds:
+        if not cx or isinstance(c, tuple):
+            continue
+        t = ir.show(c)
+        neg = False
+        while t.startswith('!'):
+            t = t[1:]
+            neg = not neg
+        if t.startswith('(') and t.endswith(')'):
+            t = t[1:-1]
+        v = pol != neg
+        if t in seen and seen[t] != v:
+            return False
+        seen[t] = v
+    return True
 
 
 def enumerate_paths(fn, classify, **kw):
